@@ -741,10 +741,16 @@ func runFpOne(spec string) string {
 // which other keys a process has seen (FingerprintIsFunctionOfKey compares the events of one key and kind).
 func (h *keysRun) shiftPairs(seed int64) {
 	r := rand.New(rand.NewSource(seed*7919 + 17))
-	bases := [][]int{{1, 3, 101, 112}, {1, 3, 101, 110}, {1, 2, 840, 113549, 1, 1, 1}, {2, 5, 4, 3}, {1, 3, 6, 1, 4, 1, 11591, 15, 1}}
+	bases := [][]int{{1, 3, 101, 112}, {1, 2, 840, 113549, 1, 1, 1}, {2, 5, 4, 3}, {1, 3, 6, 1, 4, 1, 11591, 15, 1}}
 	emit := func(k *x509.PublicKey, first string) {
 		fk, fq := p2pkeswarm.DefaultFingerprinter(k), quicswarm.DefaultFingerprinter(*k)
-		gk, gq, ok := fpFresh(k)
+		// the fresh process (one start per key) only for the key that comes second: the first one of a pair has no
+		// relevant history in this process either
+		var gk, gq p2p.PeerID
+		ok := false
+		if first == "second" {
+			gk, gq, ok = fpFresh(k)
+		}
 		site := "DefaultFingerprinter(k), " + first + " of a pair of keys whose algorithm/body boundary is shifted"
 		h.w.Emit(FpEvent{Ev: "fp", Kind: "p2pkeswarm", Key: keyID(k), Site: site, ID: idInts(fk)})
 		if ok {
@@ -753,11 +759,12 @@ func (h *keysRun) shiftPairs(seed int64) {
 		h.w.Emit(FpEvent{Ev: "fp", Kind: "quicswarm", Key: keyID(k), Site: site, ID: idInts(fq)})
 		if ok {
 			h.w.Emit(FpEvent{Ev: "fp", Kind: "quicswarm", Key: keyID(k), Site: site + " [fresh process]", ID: idInts(gq)})
+			h.nfp += 2
 		}
-		h.nfp += 4
+		h.nfp += 2
 	}
 	for bi, arcs := range bases {
-		for _, dl := range []int{0, 1, 32} {
+		for _, dl := range []int{0, 32} {
 			for order := 0; order < 2; order++ {
 				for shift := 0; shift < 2; shift++ {
 					d := make([]byte, dl)
